@@ -65,6 +65,8 @@ struct Modification {
     done_seq: Option<u64>,
     secs: i32,
     definite: bool,
+    /// Control messages of one StreamingPull stream are processed in the order they were sent.
+    stream: Option<u32>,
 }
 
 pub struct Ctx<'a> {
@@ -122,6 +124,7 @@ impl<'a> Ctx<'a> {
                             done_seq: c.ret_seq,
                             secs: *secs,
                             definite,
+                            stream: None,
                         });
                     }
                 }
@@ -176,6 +179,7 @@ impl<'a> Ctx<'a> {
                         done_seq: done.map(|d| d.0),
                         secs: n,
                         definite: done.is_some(),
+                        stream: Some(s.slot),
                     });
                 }
             }
@@ -240,8 +244,10 @@ impl<'a> Ctx<'a> {
                         hi: u64,
                         /// after this sequence number the request can no longer take effect
                         gone_by: Option<u64>,
+                        stream: Option<u32>,
+                        inv_seq: u64,
                     }
-                    let mut cands: Vec<Cand> = vec![Cand { lo, hi, gone_by: Some(d.lo_seq) }];
+                    let mut cands: Vec<Cand> = vec![Cand { lo, hi, gone_by: Some(d.lo_seq), stream: None, inv_seq: 0 }];
                     for md in list {
                         if md.end_seq.map(|e| e < d.lo_seq).unwrap_or(false) {
                             continue; // over before this id could exist: no effect possible
@@ -256,15 +262,20 @@ impl<'a> Ctx<'a> {
                         let n = (md.secs.clamp(0, 600) as u64) * 1_000_000;
                         let cand = if md.secs <= 0 {
                             nacked = true;
-                            Cand { lo: md.inv_t.min(cur_lo), hi: if settled && md.secs == 0 { md.done_t.unwrap() } else { 0 }, gone_by: if settled { md.done_seq } else { md.end_seq } }
+                            Cand { lo: md.inv_t.min(cur_lo), hi: if settled && md.secs == 0 { md.done_t.unwrap() } else { 0 }, gone_by: if settled { md.done_seq } else { md.end_seq }, stream: md.stream, inv_seq: md.inv_seq }
                         } else if settled {
-                            Cand { lo: md.inv_t + n, hi: md.done_t.unwrap() + n + SLACK_US, gone_by: md.done_seq }
+                            Cand { lo: md.inv_t + n, hi: md.done_t.unwrap() + n + SLACK_US, gone_by: md.done_seq, stream: md.stream, inv_seq: md.inv_seq }
                         } else {
-                            Cand { lo: md.inv_t + n, hi: md.done_t.unwrap_or(md.inv_t + SLACK_US) + n + 2 * SLACK_US, gone_by: md.end_seq }
+                            Cand { lo: md.inv_t + n, hi: md.done_t.unwrap_or(md.inv_t + SLACK_US) + n + 2 * SLACK_US, gone_by: md.end_seq, stream: md.stream, inv_seq: md.inv_seq }
                         };
                         if settled {
                             // everything that had certainly happened before this request was invoked is replaced
                             cands.retain(|c| !c.gone_by.map(|g| g < md.inv_seq).unwrap_or(false));
+                            // ... and so is every earlier control message of the same stream (a gRPC
+                            // stream delivers in order, and a later "set the deadline" replaces an earlier one)
+                            if md.stream.is_some() {
+                                cands.retain(|c| !(c.stream == md.stream && c.inv_seq < md.inv_seq));
+                            }
                         }
                         cands.push(cand);
                     }
@@ -513,6 +524,7 @@ pub fn evaluate(ctx: &Ctx) -> Vec<Violation> {
     rule_c09(ctx, &mut out);
     rule_c15(ctx, &mut out);
     rule_c06(ctx, &mut out);
+    rule_quiescent_late(ctx, &mut out);
     rule_c12(ctx, &mut out);
     rule_c12_race(ctx, &mut out);
     rule_seq(ctx, &mut out);
@@ -1123,7 +1135,9 @@ fn parked_consumers(ctx: &Ctx, sub: &str, from_seq: u64, to_seq: u64) -> Vec<Str
         if st.sub == sub {
             if let Some((ss, _, OK)) = st.started {
                 let ended = st.end.as_ref().map(|(es, _, _)| *es < to_seq).unwrap_or(false);
-                if ss < from_seq && !ended {
+                // a client that is not reading its responses cannot take messages
+                let stalled = st.stalls.iter().any(|(on, off)| *on <= to_seq && off.map(|o| o >= from_seq).unwrap_or(true));
+                if ss < from_seq && !ended && !stalled {
                     res.push(format!("Stream#{}", st.slot));
                 }
             }
@@ -1169,6 +1183,73 @@ fn rule_c06(ctx: &Ctx, out: &mut Vec<Violation>) {
             let parked = parked_consumers(ctx, sub, a.seq, b.seq);
             if !parked.is_empty() {
                 out.push(v("C06.quiescent", "lost_wakeup", format!("{}: backlog {} (then {}) at quiescence while {} parked", sub, a.backlog, b.backlog, parked.join(","))));
+            }
+        }
+    }
+}
+
+/// C04.late / C05.late / C05.nack, key quiescent_late: a delivery whose lease is certainly over is
+/// handed out again when a consumer is waiting. Decided at two consecutive quiescent barriers of
+/// one audit: the lease was certainly over before the first, a consumer that can take messages
+/// was parked on the subscription across both, yet no later delivery of the message exists by the
+/// second. Only for subscriptions whose every consumer's observations are complete (no abandoned or
+/// unanswered Pull, no dropped stream: those may have taken the message unseen).
+fn rule_quiescent_late(ctx: &Ctx, out: &mut Vec<Violation>) {
+    let m = ctx.m;
+    let limit = m.drain_start.map(|d| d.0).unwrap_or(u64::MAX);
+    let mut pairs: Vec<(&BarrierInfo, &BarrierInfo)> = Vec::new();
+    for w in m.barriers.windows(2) {
+        if w[0].quiescent && w[1].quiescent && w[0].phase == w[1].phase && w[1].seq < limit {
+            pairs.push((&w[0], &w[1]));
+        }
+    }
+    if pairs.is_empty() {
+        return;
+    }
+    let mut subs: BTreeSet<String> = BTreeSet::new();
+    for d in m.deliveries.iter() {
+        subs.insert(d.sub.clone());
+    }
+    for sub in subs {
+        let inst = match m.unique_sub(&sub) {
+            Some(i) => i,
+            None => continue,
+        };
+        if m.sub_delete_ever(&sub) || inst.push.is_some() {
+            continue;
+        }
+        let incomplete_pull = m.calls.values().any(|c| matches!(&c.req, Req::Pull { sub: s, .. } | Req::DrainPull { sub: s } if *s == sub) && c.inv_seq < limit && !matches!(c.out, Some(Outcome::Ok(_)) | Some(Outcome::Err(_, _))));
+        let incomplete_stream = m.streams.values().any(|st| st.sub == sub && matches!(&st.end, Some((es, _, e)) if *es < limit && !matches!(e, StreamEnd::Status(_, _) | StreamEnd::Eof)));
+        let cancelled_bg = m.calls.values().any(|c| matches!(&c.req, Req::Pull { sub: s, bg_slot: Some(slot), .. } if *s == sub && m.cancel_bg.contains_key(slot)));
+        if incomplete_pull || incomplete_stream || cancelled_bg {
+            continue;
+        }
+        let keys: Vec<&(String, String)> = m.deliveries_by_key.keys().filter(|k| k.0 == sub).collect();
+        for (b1, b2) in pairs.iter() {
+            let parked = parked_consumers(ctx, &sub, b1.seq, b2.seq);
+            if parked.is_empty() {
+                continue;
+            }
+            for key in keys.iter() {
+                let list = &m.deliveries_by_key[*key];
+                let d = match list.iter().map(|&i| &m.deliveries[i]).filter(|d| d.recv_seq < b1.seq).last() {
+                    Some(d) => d,
+                    None => continue,
+                };
+                if list.iter().any(|&i| m.deliveries[i].recv_seq > d.recv_seq && m.deliveries[i].recv_seq < b2.seq) {
+                    continue;
+                }
+                let lease = ctx.lease_at(d, inst.deadline_us(), b1.seq, b1.seq);
+                if lease.maybe_acked || lease.acked_at.is_some() {
+                    continue;
+                }
+                if lease.hi < b1.t {
+                    let fam = if lease.modified { "C05" } else { "C04" };
+                    let rule = if lease.nacked { "C05.nack".to_string() } else { format!("{fam}.late") };
+                    let detail = format!("{}: message {} (ack id {}, lease certainly over at {}us) was not delivered again by the quiescent barriers at {}us / {}us although {} waited", sub, key.1, d.recv.ack_id, lease.hi, b1.t, b2.t, parked.join(","));
+                    also_rejected(out, &lease, &detail);
+                    out.push(v(&rule, "quiescent_late", detail));
+                }
             }
         }
     }
